@@ -47,6 +47,7 @@ type verifyCtx struct {
 	inlined       map[string]bool
 	usedContracts map[string]bool
 	discipline    *Discipline
+	entryLocks    map[string]lockMode
 	proto         *protoRun
 	loops         map[*ssa.BasicBlock]*loopInfo
 	qn            int
@@ -882,9 +883,74 @@ func mentionsFresh(t Term) bool { return strings.Contains(t.S, "lp_") }
 func (e *Engine) loopTouchesTrace(fr *frame, li *loopInfo) bool {
 	for b := range li.body {
 		for _, ins := range b.Instrs {
-			switch ins.(type) {
-			case ssa.CallInstruction, *ssa.Send, *ssa.Select:
+			switch x := ins.(type) {
+			case *ssa.Send, *ssa.Select, *ssa.Go:
 				return true
+			case ssa.CallInstruction:
+				if e.callTouchesTrace(x.Common(), 0) {
+					return true
+				}
+			}
+		}
+	}
+	return false
+}
+
+var quietSpecPrefixes = []string{"sync/atomic.", "(*go.uber.org/atomic.", "math.", "(*sync.RWMutex)", "(*sync.Mutex)", "strconv.", "fmt.Sprintf", "(*bytes.Buffer)", "sort.", "errors.New", "fmt.Errorf", "runtime.", "(time.Duration).String", "(time.Time).Sub", "(time.Time).UnixNano"}
+
+// callTouchesTrace: may this call append events to the ghost call trace?
+func (e *Engine) callTouchesTrace(cc *ssa.CallCommon, depth int) bool {
+	if cc.IsInvoke() {
+		if e.isPureMethod(cc.Method) {
+			return false
+		}
+		if ci := e.closedIface(cc.Value.Type()); ci != nil {
+			return false // closed interfaces here are value-like accessors (Buckets, BucketPair)
+		}
+		return true
+	}
+	switch f := cc.Value.(type) {
+	case *ssa.Builtin:
+		return f.Name() == "close"
+	}
+	fn := cc.StaticCallee()
+	if fn == nil {
+		if mc, ok := cc.Value.(*ssa.MakeClosure); ok {
+			fn = mc.Fn.(*ssa.Function)
+		} else {
+			return true
+		}
+	}
+	name := fn.String()
+	if _, ok := builtinSpecs[name]; ok {
+		for _, p := range quietSpecPrefixes {
+			if strings.HasPrefix(name, p) {
+				return false
+			}
+		}
+		return true
+	}
+	if c := e.contractOf(fn); c != nil && !c.Inline {
+		return c.Emits
+	}
+	if fn.Blocks == nil {
+		if p := pkgOf(fn); p != nil && purePkgs[p.Path()] {
+			return false
+		}
+		return true
+	}
+	if depth > 6 {
+		return true
+	}
+	for _, b := range fn.Blocks {
+		for _, ins := range b.Instrs {
+			switch x := ins.(type) {
+			case *ssa.Send, *ssa.Select, *ssa.Go:
+				return true
+			case ssa.CallInstruction:
+				if e.callTouchesTrace(x.Common(), depth+1) {
+					return true
+				}
 			}
 		}
 	}
@@ -1133,8 +1199,12 @@ func (e *Engine) verifyCase(fn *ssa.Function, c *Contract, cs *Case, res *FuncRe
 			st.assume(e.evalSpecBool(env, r.Expr))
 		}
 	}
-	if c.Discipline {
-		vc.discipline = e.newDiscipline(fn)
+	vc.discipline = e.newDiscipline(fn)
+	vc.entryLocks = map[string]lockMode{}
+	for _, h := range c.Holds {
+		key := e.holdKey(env, h)
+		st.locks[key] = h.Mode
+		vc.entryLocks[key] = h.Mode
 	}
 	if c.Proto != "" {
 		vc.proto = e.newProtoRun(st, fn, c)
@@ -1162,8 +1232,9 @@ func (e *Engine) verifyCase(fn *ssa.Function, c *Contract, cs *Case, res *FuncRe
 					v, ok = r.ghost["wit:"+strings.TrimSpace(strings.TrimPrefix(w.Local, "callee "))]
 				}
 				if !ok {
-					// the local is not live on this path: an arbitrary value
-					v = wrapTyped(e.freshValue(r, "wit_"+w.Name, e.resolveType(pkgOf(fn), w.Type)), e.resolveType(pkgOf(fn), w.Type))
+					// the local was never reached on this path: its zero value
+					wt := e.resolveType(pkgOf(fn), w.Type)
+					v = wrapTyped(e.zeroValue(wt), wt)
 				}
 				penv.vars[w.Name] = v
 			}
@@ -1205,6 +1276,13 @@ func (e *Engine) checkFrame(st *State, vc *verifyCtx) {
 	}
 	allow := map[string][]Term{}
 	wholeOK := map[string]bool{}
+	for _, t := range e.acquiredTargets(env, c) {
+		if t.whole {
+			wholeOK[t.ks.Key] = true
+		} else {
+			allow[t.ks.Key] = append(allow[t.ks.Key], t.ref)
+		}
+	}
 	for _, m := range c.Modifies {
 		if m.All != "" {
 			for _, ks := range e.resolveAllLoc(env, m.All) {
@@ -1265,4 +1343,23 @@ func stripQuantified(q string) string {
 		sb.WriteByte('\n')
 	}
 	return sb.String()
+}
+
+// holdKey resolves a `holds` declaration to the lock-set key.
+func (e *Engine) holdKey(env *SpecEnv, h HoldDecl) string {
+	base, ok := e.evalSpec(env, h.Lock).(PtrV)
+	if !ok {
+		sfail("holds: %s is not a struct location", h.Lock)
+	}
+	stt, ok := base.Elem.Underlying().(*types.Struct)
+	if !ok {
+		sfail("holds: %s is not a struct", h.Lock)
+	}
+	for i := 0; i < stt.NumFields(); i++ {
+		if stt.Field(i).Name() == h.Field {
+			return e.locString(env.st, base.field(i, stt.Field(i).Type()))
+		}
+	}
+	sfail("holds: no field %s", h.Field)
+	return ""
 }
